@@ -254,7 +254,7 @@ func collectStep(c *Case, ci int, rec *recorder, class string) CallObs {
 			if rec.ran[name] > 0 {
 				ran[name] = true
 			}
-			if rec.ran[name] > 1 {
+			if rec.ran[name] > 0 && rec.ran[name] != execsPerRun(nd) {
 				extra = append(extra, fmt.Sprintf("node %s executed %d times in one call", name, rec.ran[name]))
 			}
 		case "sub":
@@ -296,8 +296,12 @@ func collectStep(c *Case, ci int, rec *recorder, class string) CallObs {
 		switch nd.Kind {
 		case "comp", "relay":
 			vals := []int{}
-			for _, d := range rec.delivs[name] {
-				vals = append(vals, d...)
+			for k, d := range rec.delivs[name] {
+				if k == 0 {
+					vals = append(vals, d...)
+				} else if !eqInts(d, rec.delivs[name][0]) {
+					o.Differ = append(o.Differ, fmt.Sprintf("%s received %v in execution 1 and %v in execution %d", name, rec.delivs[name][0], d, k+1))
+				}
 			}
 			o.Deliv = append(o.Deliv, PL{Path: p, Vals: vals})
 			o.Fired = append(o.Fired, PL{Path: p, Vals: sortedCopy(rec.fired[name])})
